@@ -1875,6 +1875,16 @@ func (m *Monitors) afterGC(h *H, repo string) {
 					found = true
 				}
 			}
+			if found && e != "" && !m.noProbes {
+				// "… together with their content": what is still listed is still there as a manifest
+				real := h.tk.realDigest(strings.SplitN(e, "/", 2)[0])
+				if ms, ok := rs.mans[real]; ok && !ms.blobGone && !rs.deleted[real] {
+					acc := map[string][]string{"Accept": {mtReal["ocim"], mtReal["ocii"], mtReal["dockm"], mtReal["dockl"]}}
+					if g := h.do("HEAD", "/v2/"+repo+"/manifests/"+real, reqOpt{mode: "head", hdr: acc}); g.Status == 404 {
+						m.flag(h, "C05.referrer-lost", fmt.Sprintf("referrer %s of the tagged subject %s:%s is still listed after the collection but its manifest is gone (%s)", e, repo, tag, g.Code))
+					}
+				}
+			}
 			if !found && e != "" {
 				m.flag(h, "C05.referrer-lost", fmt.Sprintf("referrer %s of the tagged subject %s:%s is no longer listed after the collection", e, repo, tag))
 			}
